@@ -82,6 +82,21 @@ def gen_inputs(ctx):
             out.append(("Bip85", {"master": m, "app": app, "p": p, "ix": {"mag": B(ix.to_bytes(5, "big")), "neg": False},
                                   "prf": {"by_index": {str(ix + 2 ** 31): out64(rng.choice([N, TOP]), rng)}}},
                         ("bip85-path-fault", app)))
+    # BIP85: the LAST step of the application path gives the zero key (IL = n - k_parent of that step) - no secret is
+    # derived from a key that does not exist
+    from .. import refwallet as W
+    for app, p in (("mnemonic", 12), ("wif", 0), ("xprv", 0), ("hex", 32), ("pwd", 21)):
+        for _ in range(1 if q else 4):
+            k = rng.choice(parents)
+            ix = rng.randrange(0, 2 ** 31 - 1)
+            m = parent(rng, k, depth=0)
+            tab = R.Table()
+            rm = W.RNode(bytes(m["k"]), R.pubkey(k), bytes(m["c"]), 0, 0, bytes(4), m["net"])
+            rpar = W.derive(tab, rm, W.bip85_path(app, p, ix)[:-1])
+            il = (N - int.from_bytes(rpar.k, "big")) % N
+            if il:
+                out.append(("Bip85", {"master": m, "app": app, "p": p, "ix": {"mag": B(ix.to_bytes(5, "big")), "neg": False},
+                                      "prf": {"by_index": {str(ix + 2 ** 31): out64(il, rng)}}}, ("bip85-last-step-zero-key", app)))
     return out
 
 
